@@ -421,7 +421,7 @@ func (h *dbHarness) root() {
 		}
 		h.harvestFaultStats(h.disk)
 		h.disk = h.disk.CrashImage(spec)
-		if h.plan.Profile == "failover" {
+		if !h.faultProfile() && len(h.plan.Faults) > 0 {
 			// the devices keep misbehaving across the restart (spent rules stay spent)
 			h.disk.SetFaults(h.plan.Faults)
 		}
